@@ -36,7 +36,8 @@ where
     pub fn make_fragments(mtu: usize, next_id: &mut u16, thing: T) -> MakeFragments<T::Buffer> {
         let buf = thing.as_buffer();
         let id = *next_id;
-        *next_id += 1;
+        // the id is a 16 bit counter that wraps around
+        *next_id = next_id.wrapping_add(1);
         MakeFragments::new(id, mtu, buf)
     }
 
